@@ -72,7 +72,7 @@ def main():
                        'reason': na_reasons.get(p['id'], 'check not built yet (framework under construction; DESIGN.md section 7 lists the planned static rules)')})
     m = {
         'version': 1,
-        'setup_cmd': 'cd /verif && /usr/bin/python3 engine/extract.py default cli',
+        'setup_cmd': 'cd /verif && /usr/bin/python3 engine/extract.py default cli cli-release-flags',
         'hooks': {
             'guard': 'paiml_copia_verif',
             'enable': 'none needed: the checks analyse /repo\'s source through a rustc_private driver (RUSTC_WORKSPACE_WRAPPER under cargo +nightly check); no hooks in /repo',
